@@ -39,7 +39,35 @@ Definition has_ties (c : case) : bool := negb (nodupb N.eqb (map fst (wake_times
 Definition agree_tied (c : case) : bool :=
   existsb (fun o => observed_is c (fst o)) (outcomes (c_spe c) (c_runs c) (wake_times 0 (c_times c))).
 
-Definition agree (c : case) : bool := if has_ties c then agree_tied c else C01_Case.agree c.
+(* Racing histories (harness/attenv/racing.go): all calls released together on real threads, every
+   environment call returning at once (all latencies zero: the marker), all for one epoch, valid data,
+   every validator with an account, nothing failing.  The interleaving is neither chosen nor known and the
+   interleavings of whole calls are too many to enumerate, so the comparison is with what EVERY schedule
+   of the model yields for such a history: each validator of the duties is signed for exactly once, the
+   attested map ends as that epoch with exactly those validators, and the calls return together as many
+   attestations as there are validators. *)
+Definition is_racing (c : case) : bool :=
+  match c_times c with [] => false | _ => forallb (fun t => tm_fetch t =? 0) (c_times c) end.
+
+Fixpoint dedup (l : list N) : list N :=
+  match l with [] => [] | x :: l' => if memb N.eqb x l' then dedup l' else x :: dedup l' end.
+
+Definition agree_racing (c : case) : bool :=
+  let vals := sort_by (fun x : N => x) (dedup (flat_map (fun r => d_vals (r_duty r)) (c_runs c))) in
+  match c_runs c with
+  | [] => false
+  | r0 :: _ =>
+      let e := epoch_of (c_spe c) (d_slot (r_duty r0)) in
+      forallb (fun r => (epoch_of (c_spe c) (d_slot (r_duty r)) =? e) &&
+                        match s_fetch (r_script r) with Some a => data_ok (c_spe c) (r_duty r) a | None => false end) (c_runs c) &&
+      list_eqb N.eqb (sort_by (fun x : N => x) (map fst (sign_list (c_spe c) (c_trace c)))) vals &&
+      forallb (fun p => snd p =? e) (sign_list (c_spe c) (c_trace c)) &&
+      list_eqb (prod_eqb N.eqb (list_eqb N.eqb)) (c_final c) [(e, vals)] &&
+      (fold_right (fun r a => match r with ROk n => n + a | RErr => a end) 0 (c_results c) =? N.of_nat (length vals))
+  end.
+
+Definition agree (c : case) : bool :=
+  if is_racing c then agree_racing c else if has_ties c then agree_tied c else C01_Case.agree c.
 
 Definition mismatches (cs : list case) : list N := failing_ids c_id agree cs.
 Definition violations (cs : list case) : list N := failing_ids c_id P_b cs.
